@@ -201,6 +201,8 @@ def gen_build(r):
             name = "sds%d" % i
             rank = r.choice([1, 1, 2, 2, 3])
             kind = r.choice(["fixed", "fixed", "unlim", "chunk", "chunkcomp", "comp", "ext"])
+            if any(x_[2] for x_ in inv.sds) and r.random() < 0.5:
+                kind = "unlim"      # several record datasets holding different numbers of records
             dims = [r.choice([2, 3, 5, 8]) for _ in range(rank)]
             if kind == "unlim":
                 dims[0] = 0
@@ -220,7 +222,7 @@ def gen_build(r):
                 L.append("sdsetexternalfile %d %d 0" % (i, x))
             if r.random() < 0.9:
                 if kind == "unlim":
-                    L.append("sdwritedata %d %d %d 0" % (i, r.randrange(100), r.choice([1, 3, 4])))
+                    L.append("sdwritedata %d %d %d 0" % (i, r.randrange(100), r.choice([1, 2, 3, 4, 5])))
                 else:
                     L.append("sdwritedata %d %d 0 0" % (i, r.randrange(100)))
             if r.random() < 0.5:
@@ -452,7 +454,7 @@ def gen_ro_program(r, inv):
             # a READING call on the same handle first (it leaves access ids / caches attached: the refusal of the mutator
             # must not depend on that), then inquiry - mutator - inquiry - the same read again
             rd = {"vs": ["vsread %s 1", "vsseek %s 0"], "v": ["vgetattr %s 0", "vinfo %s"], "sd": ["sdreaddata %s", "sdreadchunk %s", "sdreadattr 1 %s 0 0"],
-                  "gr": ["grreadimage %s", "grreadlut %s", "grgetattr 1 %s 0"]}[pfx]
+                  "gr": ["grreadimage %s", "grreadimage %s", "grreadlut %s", "grgetattr 1 %s 0"]}[pfx]
             pre = [r.choice(rd) % slot] if r.random() < 0.7 else []
             L += pre + [INFO[pfx] % slot, c, INFO[pfx] % slot] + pre
         else:
